@@ -1,6 +1,7 @@
+import Gv.Oracle.Det
 import Gv.Oracle.Dist
 import Gv.Oracle.Loop
 /-! oracle of property C07: only the handlers it needs -/
 open Gv Gv.Oracle
 
-def main : IO Unit := runOracle [DistOps.handle]
+def main : IO Unit := runOracle [DistOps.handle, DetOps.handle]
